@@ -108,8 +108,32 @@ def work(arg):
     return u
 
 
+# ---- rule names: the values of an assignment must not depend on how the rule on its right-hand side is called
+ODD_NAMES = ["sep", "eolterm", "skipws", "ws", "split", "Sep", "plain", "optional", "list", "Item"]
+
+
+def names_family():
+    A = gramgen.A_
+    L, RE, REF, SEQ = gramgen.L, gramgen.RE, gramgen.REF, gramgen.SEQ
+    for name in ODD_NAMES:
+        for kind, rule in (("match", (name, {}, RE("[xy]+"))), ("common", (name, {}, SEQ(L("c"), A("v", "=", REF("INT")))))):
+            for body in (A("p", "+=", REF(name)), A("p", "*=", REF(name), L(",")), SEQ(A("p", "+=", REF(name), L(",")), L("k"), A("q", "=", REF(name))),
+                         SEQ(A("p", "=", REF(name)), A("p", "=", REF(name))), ("plus", A("p", "=", REF(name)), L(","), False)):
+                yield [("M", {}, body), rule], (["x", "xy", ",", "k"] if kind == "match" else ["c", "7", "0", ",", "k"])
+
+
+def work_names(arg):
+    u = Unit()
+    for g, alpha in arg:
+        texts = [" ".join(t) for t in gramgen.inputs(alpha, 5 if "c" in alpha else 4, 700)]
+        c01.run_texts(g, {}, texts, u, "rule-names", label="rule-names")
+    return u
+
+
 def run(ctx):
     c01.selfcheck()
+    nf = list(names_family())
+    ctx.pmap(work_names, [nf[i:i + 5] for i in range(0, len(nf), 5)])
     bodies = list(family(ctx.tier))
     L_ = 3
     B = 30
@@ -117,7 +141,8 @@ def run(ctx):
     return {
         "rule": "case = (grammar, config, input); grammars = all expression trees with 2-3 leaves of %d leaf kinds under seq / ordered choice / "
                 "unordered group with ?,*,+ on subtrees (thorough: also on the whole body) that assign p at least twice; inputs = all strings "
-                "up to %d tokens over %s; non-trivial = reference accepts" % (len(LEAVES), L_, ALPHA),
+                "up to %d tokens over %s; non-trivial = reference accepts; plus a family in which the rule on the right-hand side of list and repeated "
+                "assignments carries each of the names %s" % (len(LEAVES), L_, ALPHA, ODD_NAMES),
         "exhaustive": True, "grammars": len(bodies),
     }, ["multiplicity rule: an attribute is 'many' iff some path through the rule body can execute two assignments to it (repetition counts as many)"]
 
